@@ -29,6 +29,13 @@ DATA = [
     {"a": True, "b": True, "c": False, "x": 2, "y": 2, "arr": [3, 3, 1], "site": {}, "k": "", "n": 5},
 ]
 
+# names that are keywords of the expression tokenizer, reachable only through quoted segments
+KW = {"empty": "E", "true": "T", "nil": "N", "with": {"title": "W"}, "not": "NOT", "and": {"or": "AO"}, "limit": 2, "offset": 1, "contains": "abc", "in": "b", "if": None, "else": "ELSE"}
+for _d in DATA[1:3]:
+    _d.update({k: v for k, v in KW.items() if k in ("true", "nil", "not", "if", "else")})
+    _d["site"].update(KW)
+    _d["site"]["pages"] = dict(enumerate(_d["site"]["pages"])) if False else _d["site"]["pages"]
+
 ATOMS = ["a", "b", "c", "x == 1", "y != 's'", "x < n", "arr contains 3", "site.title == 'T'", "true", "false", "nil", "x <= 2", "y == empty", "y == blank"]
 STRINGS = ["'plain'", '"dq"', "'has \"dq\" inside'", '"has \'sq\' inside"', "'back\\slash'", "'two\\\\slashes'", "'line\nbreak'", "'tab\there'", "''", "' '", "'%}{{'", "'ünï'"]
 PATHS = ["x", "site.title", "site['title']", 'site["a b"]', "site[k]", "site.pages[0].t", "site.pages[n].t", "site[site.k]", "['x']", "['site'].title", "site['a.b']", "arr[0]", "arr[-1]", "arr.first", "arr.size", "site.pages.first.t",
@@ -150,6 +157,11 @@ def pool(tier, rnd):
         ("range", "{% assign r = (1..n) %}{{ r | join: '-' }}"),
         ("range", "{{ (x..3) | size }}"),
         ("literal", "{{ 1.5 | plus: 2 }}{{ -3 }}{{ 1e3 }}{{ true }}{{ false }}{{ nil }}|{{ empty }}|{{ blank }}|"),
+        ("literal", "{{ 0.00001 }}|{{ -0.00000000123 }}|{{ 123456789012345678.0 }}|{{ 100000000000000000000.0 }}|{{ 0.0001 }}|{{ 9999999999999998.0 }}|{{ -0.0 }}|{{ 5. }}"),
+        ("literal", "{% if x < 0.00001 %}T{% endif %}{% assign f = 0.000001 | times: 10 %}{{ f }}{{ (1..3) | join: 1000000000000000000.0 }}"),
+        ("keyword-segment", "{{ site['empty'] }}{{ site['true'] }}{{ ['nil'] }}{{ site['with'].title }}{{ ['not'] }}{{ site.with['for'] }}{{ site['and']['or'] }}"),
+        ("keyword-segment", "{% for i in arr limit: site['limit'] offset: site['offset'] %}{{ i }}{% endfor %}{% if site['contains'] contains site['in'] %}c{% endif %}{{ ['if'] | default: ['else'] }}"),
+        ("case", "{% case x %}{% else %}D{% when 1 %}one{% endcase %}{% case x %}{% when 2 %}two{% else %}D{% when 1 %}one{% else %}E{% endcase %}"),
         ("literal", "{% if x == 1.0 %}T{% endif %}{% if y == nil %}N{% endif %}{% if arr == empty %}E{% endif %}{% if y == blank %}B{% endif %}"),
     ]
     return t
